@@ -2,7 +2,7 @@
 From Coq Require Import Qround.
 From DA Require Import Prelude NDArray Array PyRT.
 From DA.Model Require Import Value Reshape SliceSpec Indexing Align.
-From DA.Proofs Require Import C10_proofs C01_proofs C03_proofs C07_proofs C17_proofs C01_complete C07_methods.
+From DA.Proofs Require Import C10_proofs C01_proofs C03_proofs C07_proofs C17_proofs C01_complete C07_methods C07_identity.
 Open Scope nat_scope.
 
 (* reindex_axis(new, axis) with the default method: the axis becomes exactly the new labels (same
@@ -74,6 +74,18 @@ Print Assumptions C07_empty_axis.
 Theorem C07_promotion : cast_kind KI KF = KF /\ cast_kind KF KF = KF /\ cast_kind KB KF = KO.
 Proof. exact fill_promotes_int. Qed.
 Print Assumptions C07_promotion.
+
+(* "Reindexing onto the array's own labels is the identity": on an axis with distinct labels, for any fill value,
+   raise_error setting and method None / left, the result is the array itself - values, every axis record (labels,
+   kind, metadata) and array metadata *)
+Theorem C07_identity : forall newk fill fk re m i a,
+  wf_shape a -> i < List.length (axes a) ->
+  amem (nth i (axes a) dax0) = [] ->
+  distinct_labels (alab (nth i (axes a) dax0)) ->
+  m <> MRight ->
+  reindex_main newk (alab (nth i (axes a) dax0)) i fill fk re m a = Ok a.
+Proof. exact reindex_own_labels. Qed.
+Print Assumptions C07_identity.
 
 (* method = 'left' / 'right': the position taken for the k-th new label is searchsorted(side) on the argsorted labels,
    clipped (C07_method_position), and that position carries the least label not below the new label - at or after it
